@@ -72,7 +72,7 @@ def c18_b(ctx: Ctx):
                 out.append(ctx.viol(R, sp, r, f"_strip_prefix slices off {lo!r} characters; the prefix 'sp.' has 3"))
         elif ".removeprefix('sp.')" in t or t.endswith("split('.',1)[1]"):
             out.append(ctx.ok(R, sp, r, "the leading namespace prefix is removed"))
-        elif ".replace(" in t or ".lstrip(" in t or ".strip(" in t:
+        elif ".replace(" in t or ".lstrip(" in t or ".strip(" in t or ".split('sp.')" in t or ".rsplit('sp.'" in t or ".partition('sp.')" in t or ".rpartition('sp.')" in t:
             out.append(ctx.viol(R, sp, r, f"_strip_prefix uses {t}: every occurrence / any leading character of 'sp.' is removed, so nested keys such as 'disp.x' or 'resp.gain' are reported "
                                 "under mangled names (and may collide)"))
         else:
